@@ -187,7 +187,8 @@ public:
             return r;
         }
         Handle subscribe_lk(Handle h, const subscriber<T> *sub) {
-            auto r = subscribe_lk(sub, _regs[h]._pos);
+            //a subscriber suspended in next() is already registered for the item it waits for (not received yet)
+            auto r = subscribe_lk(sub, _regs[h]._pos - (_regs[h]._awt?1:0));
             return r;
         }
 
